@@ -7,6 +7,23 @@ use serde_json::{json, Value};
 
 pub const WQ: f64 = 100000.0;
 
+thread_local! {
+    /// "forder" scenarios: every matrix handed to the library is stored column-major (same values, other memory layout)
+    pub static FORDER: std::cell::Cell<bool> = const { std::cell::Cell::new(false) };
+}
+
+/// the same matrix in column-major layout when the current script asks for it
+pub fn layout(m: Array2<f64>) -> Array2<f64> {
+    if FORDER.with(|f| f.get()) {
+        use ndarray::ShapeBuilder;
+        let mut f = Array2::<f64>::zeros(m.raw_dim().f());
+        f.assign(&m);
+        f
+    } else {
+        m
+    }
+}
+
 pub fn fx(v: f64, q: f64) -> (i64, bool) {
     let s = v * q;
     let r = s.round();
@@ -37,7 +54,7 @@ pub fn aff_from(v: &Value) -> AffFunc {
         }
     }
     let b = Array1::from_iter(v["b"].as_array().unwrap().iter().map(|x| x.as_f64().unwrap() / q));
-    AffFunc::from_mats(m, b)
+    AffFunc::from_mats(layout(m), b)
 }
 
 pub fn poly_from(v: &Value) -> Polytope {
